@@ -226,3 +226,9 @@ pub proof fn c15_alloc(n: u64)
 pub proof fn c15_alloc_on_wf_log(n: int)
     requires n <= 16777216, /*@PL:alloc_proportional_on_wf_log*/
 {}
+
+/// `sos_core::file_identity::format_identity_bytes` (crates/core/src/file_identity.rs:8):
+/// error-message text only.  (It `expect`s the identity to be UTF-8; the four
+/// identities it is called with are ASCII constants.)
+#[verifier::external_body]
+pub fn format_identity_bytes(identity: &[u8]) -> String { unimplemented!() }
